@@ -1095,6 +1095,11 @@ func (e *c11Env) genEdit(id uint64) {
 		nb.MintsDisabled, nb.BurnsDisabled, nb.SwapsDisabled = rng.Intn(12) == 0, rng.Intn(12) == 0, rng.Intn(12) == 0
 		nb.TokensCap = decS(e.pick(c11Caps))
 	}
+	if len(nb.Tokens) > 1 && rng.Intn(4) == 0 {
+		// the same tokens in another order (the recorded reserves belong to the denominations, not to the positions)
+		i, j := rng.Intn(len(nb.Tokens)), rng.Intn(len(nb.Tokens))
+		nb.Tokens[i], nb.Tokens[j] = nb.Tokens[j], nb.Tokens[i]
+	}
 	e.doEdit(nb)
 }
 
@@ -1268,6 +1273,23 @@ func runC11(r *Rec) {
 	if r.Tier == "thorough" {
 		episodes, steps = 1500, 160
 	}
+	c11Episodes(r, episodes, steps)
+}
+
+// c11For runs a slice of the basket episodes inside the check of another property (C04: the basket module holds the
+// recorded reserves and surplus)
+func c11For(r *Rec, prop string, alias map[string]string) {
+	r.OnlyProp, r.Alias = prop, alias
+	n := 25
+	if r.Tier == "thorough" {
+		n = 200
+	}
+	c11Episodes(r, n, 80)
+	r.OnlyProp, r.Alias = "", nil
+	r.Mark("basket done")
+}
+
+func c11Episodes(r *Rec, episodes, steps int) {
 	for ep := 0; ep < episodes; ep++ {
 		e := newC11Env(r)
 		if r.Rng.Intn(4) == 0 {
